@@ -13,7 +13,6 @@ class GeneratorWrapper:
         self._send_type = None
         self._return_type = None
         self._type_vars = type_vars
-        self._initialized = False
 
         self._set_and_check_return_types(expected_return_type=expected_type)
 
@@ -51,10 +50,8 @@ class GeneratorWrapper:
     def send(self, obj) -> Any:
         state = inspect.getgeneratorstate(self._generator)
 
-        if self._initialized:
+        if state == inspect.GEN_SUSPENDED:  # the body waits at a yield: obj becomes the value of that yield expression
             assert_value_matches_type(value=obj, type_=self._send_type, type_vars=self._type_vars, err=self._err)
-        else:
-            self._initialized = True
 
         try:
             returned_value = self._generator.send(obj)
